@@ -271,12 +271,14 @@ class World(object):
         p.transport = t
         c.protocol = p
         t.protocol = p
+        self.peering.connector = c
         return c
 
     def put_connecting(self):
         from vf.env.twisted_stub import Connector
         c = Connector(self.reactor, self.cfg['remote_addr'], 179, self.peering, 30, (self.cfg['local_addr'], 0))
         self.reactor.connectors.append(c)
+        self.peering.connector = c      # Inv: the pending attempt is the one the peering tracks
         return c
 
 
@@ -299,7 +301,7 @@ def split_types(data):
     return out
 
 
-def in_state(state, cfgd=None, hold=None, now=0, allow_auto=True, counters=None):
+def in_state(state, cfgd=None, hold=None, now=0, allow_auto=True, counters=None, closing=False):
     """Place the real objects in `state` satisfying the shared invariant (DESIGN app. B):
        Idle(auto): idle-hold armed;  Idle(stopped): nothing armed
        Connect: one connector connecting, connect-retry armed
@@ -313,6 +315,13 @@ def in_state(state, cfgd=None, hold=None, now=0, allow_auto=True, counters=None)
         hold = w.cfg['hold_time']
     if state == IDLE:
         f.allow_automatic_start = allow_auto
+        if closing:
+            # Idle right after the agent closed a session: loseConnection issued, connectionLost still pending
+            c = w.put_connected()
+            c.transport.disconnecting = 1
+            c.protocol.disconnected = True
+            c.protocol.msg_sent_stat['Opens'] = 1
+            w.reactor.lose_log.append((c.transport, now))
         if allow_auto:
             f.idle_hold_timer.reset(f.idle_hold_time)
     elif state == CONNECT:
